@@ -23,7 +23,8 @@ EXPLANATION = (
     "error type's own laws (default is soft, to_fatal is fatal, is_soft = !is_fatal) are checked on "
     "every variant of the workspace's ParserErrorTrait implementor.  (L) the combinators documented to undo by themselves (sequence-with-undo, optional surround) return the possibly soft error of a child that was not the first one parsed only after set_position(entry): children such as and_then / flatten are documented not to rewind, so the induction hypothesis does not cover them."
     " (T) in a delimited list a delimiter that follows no element is accepted only when the list's collector supplies a value for the missing element; otherwise the parser returns the error it was given for that case, without going round the loop again."
-    " (P) no combinator puts the input position back and then returns a child's error that is not known to be soft.")
+    " (P) no combinator puts the input position back and then returns a child's error that is not known to be soft."
+    " (X) a combinator that sets a child's context inside its own parse does so before every parse of that child, on every path from the entry and from the previous parse of that child: no element is parsed with a stale context.")
 NOT_DECIDED = [
     "choice returns the *first* successful alternative; repetition returns the *maximal* run; "
     "delimited lists reject exactly a trailing delimiter (functional behaviour of each combinator)",
@@ -391,8 +392,70 @@ def c20_unit(f):
     return ty
 
 
+def r_context_is_current(ctx, rule="C20.X"):
+    """A combinator that hands a context to a child (`set_context`) inside its own `parse` does so for a reason: the
+    child's decision depends on what was parsed before it (the element in front of it, the left side).  In every such
+    `parse` body each call of that child's `parse` is preceded - on every path from the entry and from the previous call
+    of that child's `parse` - by a `set_context` on that child: no element is parsed with the context of an element
+    before the previous one (or with the default context once something has been parsed)."""
+    prog = ctx.prog
+    n = 0
+    for f in sorted(prog.fns.values(), key=lambda f: f.id):
+        if f.crate != "rusty_pc" or f.body is None or f.name != "parse" or f.kind == "closure":
+            continue
+        body = f.body
+        pv = mir.Prov(body)
+        setters, parses = {}, {}
+        for b, t in body.calls():
+            nm = mir.callee_path(t).split("::")[-1]
+            if nm not in ("set_context", "parse"):
+                continue
+            fld = common.receiver_field(pv, t)
+            if fld is None:
+                continue
+            (setters if nm == "set_context" else parses).setdefault(fld, set()).add(b)
+        for fld in sorted(set(setters) & set(parses)):
+            n += 1
+            # forward may-analysis: `stale` = a path reaches here on which the child's parse ran (or nothing ran yet)
+            # after the last set_context
+            stale_in = {0: True}
+            work = [0]
+            bad = []
+            out = {}
+            while work:
+                b = work.pop()
+                st = stale_in.get(b, False)
+                if b in parses[fld]:
+                    if st and b not in bad:
+                        bad.append(b)
+                    o = True
+                elif b in setters[fld]:
+                    o = False
+                else:
+                    o = st
+                if out.get(b) == o and b in out:
+                    continue
+                out[b] = o
+                for x in body.succ(b):
+                    if body.is_cleanup(x):
+                        continue
+                    new = stale_in.get(x, False) or o
+                    if x not in stale_in or new != stale_in[x] or x not in out:
+                        stale_in[x] = new
+                        work.append(x)
+            lines = sorted({body.blocks[b]["t"].get("ln") for b in bad})
+            ctx.decide(not bad, rule, "%s:%s:%s" % (rule, c20_unit(f), fld), f.loc,
+                       "every %s.parse follows a %s.set_context" % (fld, fld),
+                       "%s: `%s.parse` (line %s) can be reached without a `%s.set_context` since the entry or since the previous "
+                       "`%s.parse`: an element is parsed with a context that is not that of the element in front of it"
+                       % (c20_unit(f), fld, lines, fld, fld))
+    ctx.analysed_units(rule, context_passing_units=n)
+    ctx.require(rule, 2)
+
+
 def run(ctx):
     common.install(ctx)
     is_fatal_fn = r_error_laws(ctx)
     r_contract(ctx, is_fatal_fn)
     r_missing_element(ctx)
+    r_context_is_current(ctx)
